@@ -114,6 +114,39 @@ def sorted_chain_case(rng, n):
     return {"engine": "history", "cfg": cfg, "ops": ops, "audit_every": len(ops), "aseed": rng.getrandbits(32), "sorted_chain": n}
 
 
+def big_case(rng, n):
+    """Scale: one webentity with n pages (n > 2000, so the yield thresholds 1000 / 2000 / 5000 of the
+    *_iter requests are crossed in their natural, non-forced mode), a hub with n-2 distinct inbound
+    sources, a page with n-2 outbound links submitted as ONE crawl batch (larger than any yield
+    frequency), > 5000 links inside the webentity, one pair submitted 300 times (weight beyond one
+    byte), a nested webentity with a few hundred pages, a second site linked both ways, a reopen in
+    the middle on file back-ends."""
+    site = b"s:http|h:com|h:big|"
+    pages = [site + b"p:%04d|" % i for i in range(n)]
+    rng.shuffle(pages)
+    ops = []
+    step = 700
+    for i in range(0, n, step):
+        ops.append({"op": "add_pages", "lrus": pages[i:i + step], "crawled": (i // step) % 2 == 0, "as_str": False})
+    hub, fan, rest = pages[0], pages[1], pages[2:]
+    ops.append({"op": "add_links", "links": [[p_, hub] for p_ in rest], "as_str": False})
+    ops.append({"op": "batch", "data": [[fan, list(rest)]], "as_str": False, "yf": rng.choice([50, 1000, 3000])})
+    cfg = {"backend": rng.choice(["file", "memory"]), "default": "domain", "encoding": "utf-8", "overwrite": False, "rules": []}
+    if cfg["backend"] == "file":
+        ops.append({"op": "reopen"})
+    nested = site + b"p:0007|"
+    sub = [nested + b"p:n%03d|" % i for i in range(260)]
+    ops.append({"op": "add_pages", "lrus": sub, "crawled": False, "as_str": False})
+    ops.append({"op": "create", "prefixes": [nested]})
+    other = [b"s:https|h:org|h:other|p:%03d|" % i for i in range(120)]
+    ops.append({"op": "add_links", "links": [[rng.choice(other), rng.choice(pages)] for _ in range(400)] + [[rng.choice(pages), rng.choice(other)] for _ in range(400)]
+                + [[rng.choice(sub), rng.choice(pages)] for _ in range(300)], "as_str": False})
+    ops.append({"op": "add_links", "links": [[pages[5], pages[6]]] * 300 + [[hub, hub]] * 3, "as_str": False})
+    ops.append({"op": "add_links", "links": [[rng.choice(pages), rng.choice(pages)] for _ in range(1500)], "as_str": False})
+    ops.append({"op": "add_page", "lru": hub, "crawled": True, "as_str": False})
+    return {"engine": "history", "cfg": cfg, "ops": ops, "audit_every": len(ops), "aseed": rng.getrandbits(32), "big": n}
+
+
 def wide_case(rng, n_sites):
     """Many webentities in one index (ids well past 256, CPython's small-integer cache and any
     one-byte assumption): n_sites sites, each with an http and an https page linking to each other
@@ -297,6 +330,8 @@ def run_shard(prop, spec, tier, seed, shard, nshards, scratch):
         extra.append(("wide", tp["wide"], None))
     if tp.get("sorted_chain") and shard == max(0, nshards - 2):
         extra.append(("sorted_chain", tp["sorted_chain"], None))
+    if tp.get("big") and shard == max(0, nshards - 3):
+        extra.append(("big", tp["big"], None))
     for kind, a1, a2 in extra:
         if time.time() > deadline:
             if kind == "shape":
@@ -313,13 +348,16 @@ def run_shard(prop, spec, tier, seed, shard, nshards, scratch):
         elif kind == "sorted_chain":
             case = sorted_chain_case(rng, a1)
             stats["sorted_chain_cases"] += 1
+        elif kind == "big":
+            case = big_case(rng, a1)
+            stats["big_cases_past_the_yield_thresholds"] += 1
         else:
             case = soak_case(rng, a1)
             stats["soak_cases"] += 1
         case["id"] = "%s/%s/%s" % (kind, a1, "".join(map(str, a2 or ())))
         ds, feats, digest = run_case(prop, case, spec, scratch, stats)
         res["cases"] += 1
-        if kind in ("soak", "wide", "sorted_chain"):
+        if kind in ("soak", "wide", "sorted_chain", "big"):
             res["notes"].append("%s case: %s" % (kind, feats))
         if feats and nontrivial(feats):
             res["nontrivial"].append(digest)
